@@ -34,6 +34,14 @@
 (* elements) and the content of ds:X509Data as a sequence of items         *)
 (* (certificates and the hints X509IssuerSerial / X509SubjectName /        *)
 (* X509SKI, in one or several X509Data elements).                          *)
+(*                                                                         *)
+(* Round 4 (fixes/XmlEnc-d.md) adds three dimensions: which OPTIONAL parts *)
+(* of EncryptionMethod a producer writes (ds:DigestMethod, xenc11:MGF,     *)
+(* xenc:OAEPparams, xenc:KeySize - absent means the W3C default), the      *)
+(* VALUE of a symmetric key of the right size (table KeyParts: equal /     *)
+(* zero / all-ones / weak / semi-weak DES sub-keys, parity, repeating      *)
+(* patterns), and what an *rsa.PrivateKey holds in Primes / Precomputed    *)
+(* (table RsaParts).                                                       *)
 (***************************************************************************)
 EXTENDS Integers, Sequences, FiniteSets, TLC, Json
 
@@ -86,25 +94,43 @@ W3C(a) == CASE a = "aes128-cbc"    -> [mode |-> "cbc", cipher |-> "aes",  key |-
 \*                            (etree path step "ds:DigestMethod" instead of "DigestMethod").  Empty in the pinned tree
 \*                            and in the tree with the fixes: every FindElement path of decrypt.go / pubkey.go / cbc.go /
 \*                            gcm.go is written without prefix.  See "lexical form" below.
+\* AbsentDigestKeepsConfigured pubkey.go:119-122: an EncryptionMethod without ds:DigestMethod means SHA-1 (XML-Enc 5.5.2); an
+\*                            implementation that instead keeps the DigestMethod its registered decrypter was configured with
+\*                            (SHA-256 for OAEP() and OAEP_SHA256(), pubkey.go:200-203).  FALSE in every tree.
+\* OaepParamsIgnored          pubkey.go:176: rsa.DecryptOAEP(..., nil): xenc:OAEPparams is never read, the label is always empty
+\* KeyRefusal                 rules by which a cipher constructor (cbc.go:44, :106; gcm.go:46, :108) refuses keys of the
+\*                            right size; {} in every tree: crypto/aes and crypto/des accept every key.  See Refuses.
+\* UncheckedPrecomputed       crypto/rsa go1.23 rsa.go:651-676 decrypt: once Precompute() has run on a key (Precomputed.n set) the CRT
+\*                            values Qinv, Dp, Dq are used without a check; xmlenc hands the caller's key to crypto/rsa as it is
+\*                            (pubkey.go:176 / :191).  TRUE in the pinned tree and in the tree with the fixes: a panic for a key
+\*                            from which one of these values has been removed.
+\* ValidatesKey               an implementation that calls (*rsa.PrivateKey).Validate on the caller's key before using it
+\*                            (go1.23: Validate calls prime.Cmp on every entry of Primes without a nil check).  FALSE in every tree.
 DevNone ==
   [StripOffByOne |-> FALSE, AcceptOversizePadding |-> FALSE, DesSingleKey |-> FALSE, DecIvFixed16 |-> FALSE,
    NoAlignCheck |-> FALSE, GcmPads |-> FALSE, GcmNonceShadowed |-> FALSE, GcmSealsZeros |-> FALSE,
    GcmNonceNotEmitted |-> FALSE, NoGcmLenCheck |-> FALSE, Oaep11Unregistered |-> FALSE,
    DigestEmit |-> "w3c", DigestAccept |-> {"w3c"}, MgfFollowsDigest |-> FALSE, Oaep11NoMgf |-> FALSE,
-   NoKeyCompletenessCheck |-> FALSE, Oaep11MgfIsDigest |-> FALSE, PrefixBound |-> {}]
+   NoKeyCompletenessCheck |-> FALSE, Oaep11MgfIsDigest |-> FALSE, PrefixBound |-> {},
+   AbsentDigestKeepsConfigured |-> FALSE, OaepParamsIgnored |-> FALSE, KeyRefusal |-> {}, ValidatesKey |-> FALSE,
+   UncheckedPrecomputed |-> FALSE]
 DevPinned ==
   [StripOffByOne |-> TRUE, AcceptOversizePadding |-> TRUE, DesSingleKey |-> TRUE, DecIvFixed16 |-> TRUE,
    NoAlignCheck |-> TRUE, GcmPads |-> TRUE, GcmNonceShadowed |-> TRUE, GcmSealsZeros |-> TRUE,
    GcmNonceNotEmitted |-> TRUE, NoGcmLenCheck |-> TRUE, Oaep11Unregistered |-> TRUE,
    DigestEmit |-> "pkg", DigestAccept |-> {"pkg"}, MgfFollowsDigest |-> TRUE, Oaep11NoMgf |-> TRUE,
-   NoKeyCompletenessCheck |-> TRUE, Oaep11MgfIsDigest |-> FALSE, PrefixBound |-> {}]
+   NoKeyCompletenessCheck |-> TRUE, Oaep11MgfIsDigest |-> FALSE, PrefixBound |-> {},
+   AbsentDigestKeepsConfigured |-> FALSE, OaepParamsIgnored |-> TRUE, KeyRefusal |-> {}, ValidatesKey |-> FALSE,
+   UncheckedPrecomputed |-> TRUE]
 \* the tree with the patches of /verif/fixes/C10-*.patch, C11-*.patch, C11b-*.patch applied
 DevFixed ==
   [StripOffByOne |-> FALSE, AcceptOversizePadding |-> TRUE, DesSingleKey |-> FALSE, DecIvFixed16 |-> FALSE,
    NoAlignCheck |-> FALSE, GcmPads |-> TRUE, GcmNonceShadowed |-> TRUE, GcmSealsZeros |-> TRUE,
    GcmNonceNotEmitted |-> TRUE, NoGcmLenCheck |-> FALSE, Oaep11Unregistered |-> FALSE,
    DigestEmit |-> "w3c", DigestAccept |-> {"w3c", "pkg"}, MgfFollowsDigest |-> TRUE, Oaep11NoMgf |-> FALSE,
-   NoKeyCompletenessCheck |-> FALSE, Oaep11MgfIsDigest |-> TRUE, PrefixBound |-> {}]
+   NoKeyCompletenessCheck |-> FALSE, Oaep11MgfIsDigest |-> TRUE, PrefixBound |-> {},
+   AbsentDigestKeepsConfigured |-> FALSE, OaepParamsIgnored |-> TRUE, KeyRefusal |-> {}, ValidatesKey |-> FALSE,
+   UncheckedPrecomputed |-> FALSE]
 
 (* implementation parameters under a deviation record d *)
 KeySize(d, a) == IF a = "tripledes-cbc" /\ d.DesSingleKey THEN 8 ELSE W3C(a).key
@@ -115,25 +141,65 @@ IvDec(d, a)   == IF d.DecIvFixed16 THEN 16 ELSE W3C(a).block
 Registered(d, a) == a \in BCs \/ a \in {"rsa-oaep-mgf1p", "rsa-1_5"} \/ (a = "rsa-oaep11" /\ ~d.Oaep11Unregistered)
 
 (***************************** symbolic values *****************************)
-Bytes(n, id) == [t |-> "bytes", len |-> n, id |-> id]
+\* v: the VALUE class of a byte string that is a symmetric key ("std": random octets), table KeyParts below
+BytesV(n, id, v) == [t |-> "bytes", len |-> n, id |-> id, v |-> v]
+Bytes(n, id) == BytesV(n, id, "std")
 \* key value handed to Decrypt.  t is the Go type, shape what a value of that type holds:
 \*   t     : bytes ([]byte) | nil (untyped nil) | rsa (*rsa.PrivateKey) | rsaval (rsa.PrivateKey, not a pointer) |
 \*           rsapub (*rsa.PublicKey) | signer (a crypto.Signer / crypto.Decrypter wrapping the *rsa.PrivateKey, as a
 \*           key held in a token is presented) | ecdsa (*ecdsa.PrivateKey) | ed25519 (ed25519.PrivateKey) | string
-\*   shape : std | nilslice ([]byte(nil)) and, for t = rsa (id names the key pair, public exponent 65537):
+\*   shape : for t = bytes: std (random octets) | nilslice ([]byte(nil)) | a value class of table KeyParts;
+\*           for t = rsa (id names the key pair, public exponent 65537) a row of table RsaParts:
 \*           std       N, E, D, Primes, Precomputed (what the x509 parsers and GenerateKey return)
 \*           noprecomp N, E, D, Primes            noprimes N, E, D only (a key imported by its private exponent)
 \*           wrongd    N, E and a D that is not the private exponent of (N, E)
 \*           nod       N, E only                   zero  &rsa.PrivateKey{}       typednil  (*rsa.PrivateKey)(nil)
+\*           and the finer shapes of Primes / Precomputed (round 4)
 KeyShape(t, n, id, s) == [t |-> t, len |-> n, id |-> id, shape |-> s]
 KeyVal(t, n, id) == KeyShape(t, n, id, "std")
 RsaHolders == {"rsa", "rsaval", "signer"}                 \* Go types whose value holds an RSA private key
-Working    == {"std", "noprecomp", "noprimes"}            \* shapes with which crypto/rsa can decrypt for (N, E)
-Incomplete == {"nod", "zero", "typednil"}                 \* no private exponent / no modulus / no key at all
-RsaShapes  == Working \cup {"wrongd"} \cup Incomplete
+\* What an *rsa.PrivateKey holds (extends the key value table of fixes/C11b.md):
+\*   ptr    : "ok" | "nil" (a typed nil pointer)      n : "ok" | "nil"      d : "ok" | "wrong" | "nil"
+\*   primes : "ok" the prime factors of N (two; three for the multi-prime key pair "mp3") | "nil" no slice | "empty" a
+\*            slice of length 0 | "presized" a slice of the right length whose entries are all nil (make([]*big.Int, n)
+\*            never filled, or wiped) | "onenil" the last entry nil | "wrong" numbers whose product is not N
+\*   precomp: "kept" Precomputed as Precompute() and the x509 parsers leave it | "none" its zero value | "nodp" / "noqinv"
+\*            kept, but the exported value Dp / Qinv removed (set to nil) afterwards
+\*   crt    : "asis" | "nilentries" Precomputed.CRTValues holds entries whose Exp / Coeff / R are nil
+RsaParts(s) ==
+  LET K(ptr, n, d, primes, precomp, crt) == [ptr |-> ptr, n |-> n, d |-> d, primes |-> primes, precomp |-> precomp, crt |-> crt] IN
+  CASE s = "noprecomp"    -> K("ok", "ok", "ok", "ok", "none", "asis")
+    [] s = "noprimes"     -> K("ok", "ok", "ok", "nil", "none", "asis")
+    [] s = "emptyprimes"  -> K("ok", "ok", "ok", "empty", "none", "asis")
+    [] s = "presized"     -> K("ok", "ok", "ok", "presized", "none", "asis")
+    [] s = "onenil"       -> K("ok", "ok", "ok", "onenil", "none", "asis")
+    [] s = "wrongprimes"  -> K("ok", "ok", "ok", "wrong", "none", "asis")
+    [] s = "wiped"        -> K("ok", "ok", "ok", "nil", "kept", "asis")         \* Primes wiped, Precomputed kept
+    [] s = "wipedentries" -> K("ok", "ok", "ok", "presized", "kept", "asis")    \* entries of Primes wiped, Precomputed kept
+    [] s = "crtnil"       -> K("ok", "ok", "ok", "ok", "kept", "nilentries")
+    [] s = "dpnil"        -> K("ok", "ok", "ok", "ok", "nodp", "asis")           \* Precomputed.Dp = nil
+    [] s = "qinvnil"      -> K("ok", "ok", "ok", "ok", "noqinv", "asis")         \* Precomputed.Qinv = nil
+    [] s = "wrongd"       -> K("ok", "ok", "wrong", "nil", "none", "asis")
+    [] s = "nod"          -> K("ok", "ok", "nil", "nil", "none", "asis")
+    [] s = "zero"         -> K("ok", "nil", "nil", "nil", "none", "asis")
+    [] s = "typednil"     -> K("nil", "nil", "nil", "nil", "none", "asis")
+    [] OTHER              -> K("ok", "ok", "ok", "ok", "kept", "asis")          \* "std"
+\* Shapes on which the pinned tree panicked (named deviation UncheckedPrecomputed, fixes/XmlEnc-d.md); enumerated since
+\* the repair (fix commit 70f590f in /repo).
+EnumerateOpenShapes == TRUE
+OpenShapes == {"dpnil", "qinvnil"}
+NewShapes  == {"emptyprimes", "presized", "onenil", "wrongprimes", "wiped", "wipedentries", "crtnil"}     \* round 4
+              \cup (IF EnumerateOpenShapes THEN OpenShapes ELSE {})
+RsaShapes  == {"std", "noprecomp", "noprimes", "wrongd", "nod", "zero", "typednil"} \cup NewShapes
+\* crypto/rsa (go1.23) decrypts with Precomputed when Precompute() has filled it and with N, D otherwise; it never reads
+\* Primes and never reads Precomputed.CRTValues: every shape with a modulus and the right private exponent works
+Working    == { s \in RsaShapes : RsaParts(s).ptr = "ok" /\ RsaParts(s).n = "ok" /\ RsaParts(s).d = "ok"
+                                    /\ RsaParts(s).precomp \in {"kept", "none"} }
+Incomplete == { s \in RsaShapes : RsaParts(s).ptr = "nil" \/ RsaParts(s).n = "nil" \/ RsaParts(s).d = "nil" }
 \* public half of a key value holding an RSA key: modulus identity and public exponent ("none": there is none)
-PubN(k) == IF k.t \in RsaHolders /\ k.shape \notin {"zero", "typednil"} THEN k.id ELSE "none"
-PubE(k) == IF k.t \in RsaHolders /\ k.shape \notin {"zero", "typednil"} THEN "F4" ELSE "none"
+HasPub(k) == k.t \in RsaHolders /\ (k.t = "rsa" => RsaParts(k.shape).n = "ok")
+PubN(k) == IF HasPub(k) THEN k.id ELSE "none"
+PubE(k) == IF HasPub(k) THEN "F4" ELSE "none"
 NoCt == [k |-> "none"]
 \* block ciphertext.  made: cbc | gcm | junk
 Blk(made, cipher, kid, klen, iv, body, tag, pt, last, src, padded, mod) ==
@@ -141,8 +207,9 @@ Blk(made, cipher, kid, klen, iv, body, tag, pt, last, src, padded, mod) ==
    pt |-> pt, last |-> last, src |-> src, padded |-> padded, mod |-> mod]
 Junk == Blk("junk", "none", "none", 0, 0, 0, 0, Bytes(0, "X"), -1, "p", FALSE, "none")
 \* RSA ciphertext.  scheme: oaep | pkcs1 | junk
+\*   label: the OAEP label (xenc:OAEPparams) the key was wrapped with: "none" (empty) | "L"
 Wrap(scheme, hash, mgf, to, payload) ==
-  [k |-> "wrap", scheme |-> scheme, hash |-> hash, mgf |-> mgf, to |-> to, payload |-> payload]
+  [k |-> "wrap", scheme |-> scheme, hash |-> hash, mgf |-> mgf, to |-> to, payload |-> payload, label |-> "none"]
 NoDm == [k |-> "absent", name |-> "", uri |-> ""]
 UnknownDm == [k |-> "unknown", name |-> "", uri |-> "other"]
 Dm(name, uri) == [k |-> "known", name |-> name, uri |-> IF name = "sha1" THEN "both" ELSE uri]
@@ -153,8 +220,14 @@ Dm(name, uri) == [k |-> "known", name |-> name, uri |-> IF name = "sha1" THEN "b
 \*   cert : class of ds:KeyInfo/ds:X509Data (table X509 below): "absent" | key name of the embedded certificate |
 \*          "garbage" | ...
 \*   eks  : EncryptedKey children of KeyInfo, in document order
+\*   oaepp: xenc:OAEPparams child of EncryptionMethod: "absent" | "empty" (present, no octets: the same empty label) |
+\*          "label" (the octets "L")
+\*   ks   : an xenc:KeySize child of EncryptionMethod is present (holding the key size the algorithm implies)
+\* Every child of EncryptionMethod is optional (XML-Enc 1.1 schema: KeySize?, OAEPparams?, any##other*): absent
+\* ds:DigestMethod means SHA-1, absent xenc11:MGF means MGF1 with SHA-1, absent OAEPparams the empty label.
 El(em, cv, len, ct, dm, mgf, cert, eks) ==
-  [em |-> em, cv |-> cv, len |-> len, ct |-> ct, dm |-> dm, mgf |-> mgf, cert |-> cert, eks |-> eks]
+  [em |-> em, cv |-> cv, len |-> len, ct |-> ct, dm |-> dm, mgf |-> mgf, cert |-> cert, eks |-> eks,
+   oaepp |-> "absent", ks |-> FALSE]
 DataEl(em, cv, len, ct, eks) == El(em, cv, len, ct, NoDm, "absent", "absent", eks)
 
 \* X509Data classes.  The content of ds:KeyInfo/ds:X509Data is a sequence of ITEMS in document order, [kind, n, e]:
@@ -184,6 +257,7 @@ X509Base(c) ==
              [] c = "sp2-ws"  -> XD(<<Crt("rsa", "sp2", "F4")>>, TRUE)
              [] c = "sp+sp2"  -> XD(<<Crt("rsa", "sp", "F4"), Crt("rsa", "sp2", "F4")>>, FALSE)   \* two certificates
              [] c = "sp2+sp"  -> XD(<<Crt("rsa", "sp2", "F4"), Crt("rsa", "sp", "F4")>>, FALSE)
+             [] c = "mp3"     -> XD(<<Crt("rsa", "mp3", "F4")>>, FALSE)            \* the three-prime key pair
 CertNames == {"absent", "nocert", "sp", "sp2", "sp-e3", "sp2-e3", "rsa1024", "rsa3072", "ec256", "garbage",
               "sp-ws", "sp2-ws", "sp+sp2", "sp2+sp"}
 \* hints, alone and combined with certificates: in front of them, behind them, in an X509Data of their own ("|").
@@ -204,7 +278,7 @@ XGen == { [name |-> h, x |-> XI(HintSeq(h), FALSE, FALSE)] : h \in XHints }
                        [name |-> cc \o "|" \o h, x |-> XI(X509Base(cc).certs \o HintSeq(h), X509Base(cc).ws, TRUE)] }
                      : h \in XHints, cc \in XCerts }
 HintNames == { g.name : g \in XGen }
-X509(c) == IF c \in CertNames THEN X509Base(c) ELSE (CHOOSE g \in XGen : g.name = c).x
+X509(c) == IF c \in CertNames \cup {"mp3"} THEN X509Base(c) ELSE (CHOOSE g \in XGen : g.name = c).x
 
 (******************************* lexical form ******************************)
 \* How a producer writes an element tree as XML text.  XML-Encryption / XML-Signature fix namespace names and local
@@ -246,7 +320,7 @@ LexC11q == { l \in LexAll : \/ Uniform(l) /\ (Plain(l) \/ (Busy(l) /\ l.decl = "
 LexC10t == { l \in LexAll : Uniform(l) \/ (l.decl \in {"self", "ancestor"} /\ (Plain(l) \/ Busy(l))) }
 LexC11t == { l \in LexAll : (Uniform(l) /\ (Plain(l) \/ Busy(l) \/ l.decl = "self")) \/ (l.decl = "self" /\ Plain(l)) }
 LexForms == CASE Family = "C10q" -> LexC10q [] Family = "C11q" -> LexC11q [] Family = "C10t" -> LexC10t [] OTHER -> LexC11t
-NsOf(name) == CASE name \in {"EncryptedData", "EncryptedKey", "EncryptionMethod", "CipherData", "CipherValue"} -> "xenc"
+NsOf(name) == CASE name \in {"EncryptedData", "EncryptedKey", "EncryptionMethod", "CipherData", "CipherValue", "KeySize", "OAEPparams"} -> "xenc"
                 [] name = "MGF" -> "xenc11"
                 [] OTHER -> "ds"     \* KeyInfo, DigestMethod, X509Data, X509Certificate, X509IssuerSerial, ...
 \* The lookups of the code are etree paths (decrypt.go:56 ./EncryptionMethod, :69 ./CipherData/CipherValue,
@@ -263,11 +337,57 @@ View(d, lex, e) ==
   [e EXCEPT !.em   = IF s({"EncryptionMethod"}) THEN @ ELSE "absent",
             !.dm   = IF s({"EncryptionMethod", "DigestMethod"}) THEN @ ELSE [k |-> "absent", name |-> "", uri |-> ""],
             !.mgf  = IF s({"EncryptionMethod", "MGF"}) THEN @ ELSE "absent",
+            !.oaepp = IF s({"EncryptionMethod", "OAEPparams"}) THEN @ ELSE "absent",
+            !.ks   = IF s({"EncryptionMethod", "KeySize"}) THEN @ ELSE FALSE,
             !.eks  = IF s({"KeyInfo", "EncryptedKey"}) THEN @ ELSE <<>>,
             !.cert = IF s({"KeyInfo", "X509Data"}) THEN @ ELSE "absent",
             !.cv   = IF @ = "ok" /\ ~s({"CipherData", "CipherValue"}) THEN "nocv" ELSE @]
 
 PadLen(n, bs) == bs - (n % bs)
+
+(********************* the value of a symmetric key ************************)
+\* "Every key of the right size": a key is a sequence of 8-octet PARTS (3DES: the DES sub-keys K1 K2 K3; AES-128 / 192 / 256:
+\* 2 / 3 / 4 parts).  A part is [src, kind, parity]; parts with the same src are the same octets; kind:
+\*   random   8 random octets      zero  00 x 8      ff  FF x 8      byte  one random octet x 8
+\*   weak     one of the four DES weak keys (0101010101010101 FEFEFEFEFEFEFEFE E0E0E0E0F1F1F1F1 1F1F1F1F0E0E0E0E), chosen by src
+\*   semiweak one key of one of the six DES semi-weak pairs (01FE01FE01FE01FE / FE01FE01FE01FE01 ...), chosen by src;
+\*   mate     the other key of the pair of src
+\* parity: "odd" every octet has odd parity (the form FIPS 46-3 prescribes for DES keys) | "even" every octet has even
+\*         parity | "any" as the octets fall (weak and semi-weak keys are written with odd parity; 00 and FF have even parity)
+Part(src, kind, parity) == [src |-> src, kind |-> kind, parity |-> parity]
+R(src) == Part(src, "random", "any")
+NParts(a) == W3C(a).key \div 8
+DesClasses == {"std", "odd", "even", "k1=k2", "k2=k3", "k1=k3", "k1=k2=k3", "zero", "ff", "byte", "weak", "semiweak", "semiweak-pair"}
+AesClasses(a) == {"std", "zero", "ff", "byte", "rep8"} \cup (IF NParts(a) = 4 THEN {"rep16"} ELSE {})
+KeyClasses(a) == IF a = "tripledes-cbc" THEN DesClasses ELSE AesClasses(a)
+KeyParts(a, v) ==
+  LET n == NParts(a) src(i) == <<"a", "b", "c", "d">>[i] IN
+  CASE v = "std"           -> [i \in 1..n |-> R(src(i))]
+    [] v = "odd"           -> [i \in 1..n |-> Part(src(i), "random", "odd")]
+    [] v = "even"          -> [i \in 1..n |-> Part(src(i), "random", "even")]
+    [] v = "k1=k2"         -> <<R("a"), R("a"), R("b")>>
+    [] v = "k2=k3"         -> <<R("a"), R("b"), R("b")>>
+    [] v = "k1=k3"         -> <<R("a"), R("b"), R("a")>>              \* two-key triple DES
+    [] v = "k1=k2=k3"      -> [i \in 1..n |-> R("a")]                 \* single DES written as a 3DES key
+    [] v = "rep8"          -> [i \in 1..n |-> R("a")]                 \* AES: the same 8 octets throughout
+    [] v = "rep16"         -> <<R("a"), R("b"), R("a"), R("b")>>      \* AES-256: the same 16 octets twice
+    [] v = "zero"          -> [i \in 1..n |-> Part("z", "zero", "any")]
+    [] v = "ff"            -> [i \in 1..n |-> Part("f", "ff", "any")]
+    [] v = "byte"          -> [i \in 1..n |-> Part("a", "byte", "any")]
+    [] v = "weak"          -> [i \in 1..n |-> Part(src(i), "weak", "any")]
+    [] v = "semiweak"      -> [i \in 1..n |-> Part(src(i), "semiweak", "any")]
+    [] v = "semiweak-pair" -> <<Part("a", "semiweak", "any"), Part("a", "mate", "any"), R("c")>>
+    [] OTHER               -> <<>>                                    \* "nilslice"; values that are not byte strings
+\* cbc.go:44 / :106, gcm.go:46 / :108  block, err := e.cipher(key): does the constructor of an implementation with the refusal
+\* rules d.KeyRefusal refuse the key value v for algorithm a?  (The W3C identifiers put no condition on a key but its size.)
+Refuses(d, a, v) ==
+  LET p == KeyParts(a, v) c == Cipher(d, a) des == c \in {"3des", "des"} IN
+  /\ d.KeyRefusal # {} /\ p # <<>>
+  /\ \/ "3des-adjacent-equal" \in d.KeyRefusal /\ c = "3des" /\ (p[1] = p[2] \/ p[2] = p[3])
+     \/ "3des-any-equal" \in d.KeyRefusal /\ c = "3des" /\ (p[1] = p[2] \/ p[2] = p[3] \/ p[1] = p[3])
+     \/ "des-weak" \in d.KeyRefusal /\ des /\ \E i \in DOMAIN p : p[i].kind \in {"weak", "semiweak", "mate", "zero", "ff"}
+     \/ "des-parity" \in d.KeyRefusal /\ des /\ \E i \in DOMAIN p : ~(p[i].parity = "odd" \/ p[i].kind \in {"weak", "semiweak", "mate"})
+     \/ "uniform" \in d.KeyRefusal /\ \A i \in DOMAIN p : p[i].kind \in {"zero", "ff", "byte"}
 
 (******************************* case spaces *******************************)
 \* ---- C10: every offered combination
@@ -278,8 +398,20 @@ KtCases == {[kt |-> "direct", dm |-> "none"]}
 PLens(a) == 0 .. (4 * W3C(a).block + 1)
 \* fam "base": the three directions, everything in the package's own lexical form, the recipient's certificate embedded.
 \* lex : lexical form in which the independent producer writes its element;  ki : X509Data class it embeds
-C10Cases == { [fam |-> "base", bc |-> a, kt |-> k.kt, dm |-> k.dm, plen |-> n, nonce |-> nn, lex |-> LexPkg, ki |-> "sp"] :
-                a \in BCs, k \in KtCases, n \in 0..65, nn \in {"supplied", "generated"} }
+\* mgfd: the digest of the MGF1 the key is wrapped with (rsa-oaep-mgf1p: SHA-1 by definition; xmlenc11 rsa-oaep: named by
+\*       xenc11:MGF, what the package offers is MGF1 over the DigestMethod's hash)
+\* opt : which optional parts of EncryptionMethod the INDEPENDENT PRODUCER writes (the package's own output has one form):
+\*       dm / mgf "named" | "absent"; oaepp "absent" | "empty" | "label"; ks KeySize written in the data EncryptionMethod
+\* kv  : the value class of the symmetric key (table KeyParts): the caller's key with a direct key; with a key transport
+\*       the session key the independent producer draws (the package draws its own from RandReader: "std")
+Oaep(kt) == kt \in {"rsa-oaep-mgf1p", "rsa-oaep11"}
+OptStd(kt) == [dm |-> IF Oaep(kt) THEN "named" ELSE "absent", mgf |-> IF kt = "rsa-oaep11" THEN "named" ELSE "absent",
+               oaepp |-> "absent", ks |-> FALSE]
+StdMgf(kt, dm) == IF kt = "rsa-oaep11" THEN dm ELSE IF kt = "rsa-oaep-mgf1p" THEN "sha1" ELSE "none"
+Case(fam, a, k, n, nn, l, x) ==
+  [fam |-> fam, bc |-> a, kt |-> k.kt, dm |-> k.dm, plen |-> n, nonce |-> nn, lex |-> l, ki |-> x,
+   mgfd |-> StdMgf(k.kt, k.dm), opt |-> OptStd(k.kt), kv |-> "std"]
+C10Cases == { Case("base", a, k, n, nn, LexPkg, "sp") : a \in BCs, k \in KtCases, n \in 0..65, nn \in {"supplied", "generated"} }
 \* fam "lex": direction ref2pkg only.  The independent producer writes the same ciphertexts in every lexical form and
 \* with the key information conformant producers embed: the recipient's certificate, its X509IssuerSerial followed by
 \* the certificate (xmlsec, Shibboleth), none.  (The package's own output has one form: it is family "base".)
@@ -288,9 +420,34 @@ C10LexLens == IF Thorough THEN {0, 17} ELSE {17}
 \* key information other than the bare certificate: with one form of binding for all namespaces, declared on the element
 C10Kis(kt, l) == IF kt = "direct" THEN {"absent"}
                  ELSE IF Uniform(l) /\ Plain(l) /\ l.decl = "self" THEN {"sp", "is+sp", "absent"} ELSE {"sp"}
-C10Lex == UNION { { [fam |-> "lex", bc |-> a, kt |-> k.kt, dm |-> k.dm, plen |-> n, nonce |-> "supplied", lex |-> l, ki |-> x] :
+C10Lex == UNION { { Case("lex", a, k, n, "supplied", l, x) :
                     a \in C10LexBcs, n \in C10LexLens, x \in C10Kis(k.kt, l) } : k \in KtCases, l \in LexForms }
-C10Set == { x \in C10Cases : x.plen \in PLens(x.bc) } \cup C10Lex
+\* fam "opt": direction ref2pkg only.  The independent producer leaves out the parts of EncryptionMethod whose W3C default
+\* is the value it means, writes an empty OAEPparams, writes KeySize.  Key transports: everything the package offers
+\* (xmlenc11 rsa-oaep with SHA-1 is offered by assigning DigestMethod) and, as cases the statement leaves open, xmlenc11
+\* rsa-oaep with an MGF1 digest other than the DigestMethod's and a non-empty OAEP label.
+OptKts == { [kt |-> "rsa-oaep-mgf1p", dm |-> h, mgfd |-> "sha1"] : h \in Digests }
+          \cup { [kt |-> "rsa-oaep11", dm |-> h, mgfd |-> h] : h \in {"sha1", "sha256", "sha512"} }
+          \cup { [kt |-> "rsa-oaep11", dm |-> "sha256", mgfd |-> "sha1"], [kt |-> "rsa-oaep11", dm |-> "sha1", mgfd |-> "sha256"] }
+          \cup { [kt |-> "rsa-1_5", dm |-> "none", mgfd |-> "none"], [kt |-> "direct", dm |-> "none", mgfd |-> "none"] }
+\* the correct ways of writing the parameters k: a part may be left out exactly when the W3C default is the value meant
+Opts(k) == { o \in [dm : {"named", "absent"}, mgf : {"named", "absent"}, oaepp : {"absent", "empty", "label"}, ks : BOOLEAN] :
+               /\ (o.dm = "named" => Oaep(k.kt)) /\ (o.dm = "absent" /\ Oaep(k.kt) => k.dm = "sha1")
+               /\ (o.mgf = "named" => k.kt = "rsa-oaep11") /\ (o.mgf = "absent" /\ k.kt = "rsa-oaep11" => k.mgfd = "sha1")
+               /\ (o.oaepp # "absent" => Oaep(k.kt)) }
+OptBcs == IF Thorough THEN BCs ELSE {"aes128-cbc", "aes128-gcm"}
+OptLex == IF Thorough THEN { l \in LexAll : Uniform(l) /\ l.decl = "self" /\ (Plain(l) \/ Busy(l)) }
+                      ELSE { LexPkg, Lex("other", "other", "other", "self", "std", FALSE, FALSE) }
+C10Opt == UNION { { [Case("opt", a, k, 17, "supplied", l, IF k.kt = "direct" THEN "absent" ELSE "sp")
+                       EXCEPT !.mgfd = k.mgfd, !.opt = o] : a \in OptBcs, l \in OptLex, o \in Opts(k) } : k \in OptKts }
+\* fam "keyval": every value class of the key, for every block cipher.  Direct key: the three directions (the caller
+\* supplies the key to Encrypt and to Decrypt).  Key transport: direction ref2pkg (the session key of the independent
+\* producer arrives wrapped).
+KvLens == IF Thorough THEN {0, 1, 7, 8, 9, 16, 17, 33} ELSE {0, 17}
+C10Kv == UNION { { [Case("keyval", a, k, n, "supplied", LexPkg, "sp") EXCEPT !.kv = v] :
+                   k \in {[kt |-> "direct", dm |-> "none"], [kt |-> "rsa-oaep-mgf1p", dm |-> "sha1"]}, n \in KvLens, v \in KeyClasses(a) }
+                 : a \in BCs }
+C10Set == { x \in C10Cases : x.plen \in PLens(x.bc) } \cup C10Lex \cup C10Opt \cup C10Kv
 
 \* ---- C11: elements an attacker can build.  Built with W3C parameters unless said otherwise.
 \* data key "K" of length klen; genuine CBC body of n bytes whose final plaintext byte is p
@@ -366,11 +523,30 @@ KtEK(kt, cert) == RefEK(kt, IF kt = "rsa-1_5" THEN NoDm ELSE Dm("sha1", "w3c"), 
 JunkWrap == Wrap("junk", "none", "none", "none", Bytes(0, "X"))
 EkCvVariants(ek) == { ek, [ek EXCEPT !.cv = "badb64"], [ek EXCEPT !.cv = "nocv"] }
                     \cup { [ek EXCEPT !.len = n, !.ct = JunkWrap] : n \in {0, 255, 256} }
+\* (quick tier: the shapes of round 4 with the valid, the undecodable and one junk cipher value)
+EkCvFor(k, ek) == IF k.t = "rsa" /\ k.shape \in NewShapes /\ ~Thorough
+                    THEN { ek, [ek EXCEPT !.cv = "badb64"], [ek EXCEPT !.len = 256, !.ct = JunkWrap] }
+                    ELSE EkCvVariants(ek)
 F3k == UNION { UNION { { [fam |-> "kshape", via |-> "rsa", el |-> GoodData("aes128-cbc", <<ek>>), key |-> k],
                          [fam |-> "kshape", via |-> "ek", el |-> ek, key |-> k] }
-                       : ek \in EkCvVariants(KtEK(kt, cert)) }
+                       : ek \in EkCvFor(k, KtEK(kt, cert)) }
                : kt \in KTs, cert \in {"absent", "sp", "sp-e3"},
                  k \in ShapedKeys \cup {SpKey, KeyVal("ecdsa", 32, "ec256")} }
+\* F3m: a multi-prime key pair ("mp3": N = p q r, as rsa.GenerateMultiPrimeKey and PKCS #1 version 1 keys give) - three
+\* primes, Precomputed.CRTValues in use - whole and in the shapes that concern Primes / Precomputed, EncryptedKey wrapped
+\* to it, with its certificate, without, with the certificate of another key
+Mp3Shapes == {"std", "noprecomp", "crtnil", "onenil", "presized", "emptyprimes", "wiped", "wipedentries"}
+F3m == UNION { { [fam |-> "kshape", via |-> "rsa", el |-> GoodData("aes128-cbc", <<ek>>), key |-> KeyShape("rsa", 256, "mp3", sh)],
+                 [fam |-> "kshape", via |-> "ek", el |-> ek, key |-> KeyShape("rsa", 256, "mp3", sh)] }
+               : ek \in { RefEK(kt, IF kt = "rsa-1_5" THEN NoDm ELSE Dm("sha1", "w3c"), "absent", cert, "mp3", Bytes(16, "K")) :
+                            kt \in KTs, cert \in {"absent", "mp3", "sp"} },
+                 sh \in Mp3Shapes }
+\* F3v: the VALUE of the symmetric key (table KeyParts): every class for every block cipher, as the caller's key and as
+\* the payload of an EncryptedKey
+F3v == UNION { UNION { { [fam |-> "keyvalue", via |-> "direct", el |-> GoodData(a, <<>>), key |-> KeyShape("bytes", W3C(a).key, "K", v)],
+                         [fam |-> "keyvalue", via |-> "rsa",
+                          el |-> GoodData(a, << [StdEK(W3C(a).key) EXCEPT !.ct.payload = BytesV(W3C(a).key, "K", v)] >>), key |-> SpKey] }
+                       : v \in KeyClasses(a) } : a \in BCs }
 
 \* F4: EncryptedKey variants
 DmVariants == { NoDm, UnknownDm, Dm("sha1", "w3c"), Dm("sha256", "w3c"), Dm("sha256", "pkg"), Dm("sha512", "w3c"), Dm("ripemd160", "pkg") }
@@ -386,6 +562,23 @@ F4b == { [fam |-> "ek", via |-> "rsa", el |-> GoodData(a, << StdEK(n) >>), key |
        \cup { [fam |-> "ek", via |-> "rsa",
                el |-> GoodData("aes128-cbc", << [StdEK(16) EXCEPT !.len = n, !.ct = Wrap("junk", "none", "none", "none", Bytes(0, "X"))] >>),
                key |-> SpKey] : n \in {0, 1, 255, 256, 257, 512} }
+
+\* F4o: the optional parts of EncryptionMethod: DigestMethod absent / SHA-1 / SHA-256 x MGF absent / mgf1sha1 / mgf1sha256
+\* (xmlenc11 rsa-oaep) x OAEPparams absent / empty / a label x KeySize in the data EncryptionMethod x certificate; the key
+\* is wrapped with what the element says (absent: the W3C defaults).  KeySize also with a direct key.
+OptEK(kt, dm, mgf, oaepp, cert, to, payload) ==
+  LET e == RefEK(kt, dm, mgf, cert, to, payload) IN
+  [e EXCEPT !.oaepp = oaepp, !.ct = IF oaepp = "label" THEN [@ EXCEPT !.label = "L"] ELSE @]
+F4o == { [fam |-> "ekopt", via |-> "rsa",
+          el |-> [GoodData("aes128-cbc", << OptEK(kt, dm, mgf, op, cert, "sp", Bytes(16, "K")) >>) EXCEPT !.ks = ks],
+          key |-> SpKey] :
+          kt \in {"rsa-oaep-mgf1p", "rsa-oaep11"}, dm \in {NoDm, Dm("sha1", "w3c"), Dm("sha256", "w3c")},
+          mgf \in {"absent", "sha1", "sha256"}, op \in {"absent", "empty", "label"}, ks \in BOOLEAN, cert \in {"absent", "sp"} }
+F4oSet == { x \in F4o : x.el.eks[1].mgf = "absent" \/ x.el.eks[1].em = "rsa-oaep11" }
+          \cup { [fam |-> "ekopt", via |-> "rsa",
+                  el |-> [GoodData("aes128-cbc", << RefEK("rsa-1_5", NoDm, "absent", cert, "sp", Bytes(16, "K")) >>) EXCEPT !.ks = TRUE],
+                  key |-> SpKey] : cert \in {"absent", "sp"} }
+          \cup { [fam |-> "ekopt", via |-> "direct", el |-> [GoodData(a, <<>>) EXCEPT !.ks = TRUE], key |-> DirectKey(a)] : a \in BCs }
 
 \* F4x: X509Data as a sequence of items: hints alone, in front of / behind / beside certificates (table XGen)
 F4x == { [fam |-> "ekx", via |-> "rsa",
@@ -410,6 +603,7 @@ F5 == UNION { { [fam |-> "nest", via |-> "rsa", el |-> Depth2(a, RefEK("rsa-oaep
             : a \in {"aes128-cbc", "aes256-cbc", "tripledes-cbc", "aes128-gcm"} }
 
 C11Base == F1 \cup F2 \cup F3 \cup F3k \cup F4 \cup F4b \cup F4x \cup F5
+C11New == F3m \cup F3v \cup F4oSet      \* round 4 (the new key shapes are part of F3 / F3k)
 \* F6: the lexical form.  Cases of every verdict class - lengths around a well-formed cipher value with every final byte /
 \* modified region, every structural variant, EncryptedKey variants (digest method absent / unknown / known, MGF, X509Data
 \* absent / matching / other key / hints with and without certificate), nesting and repetition - written in every form.
@@ -423,10 +617,13 @@ LexBase == { x \in F1 : x.el.em \in LexAlgs /\ x.el.len \in {0, GoodLen(x.el.em)
                                       /\ x.el.eks[1].cert \in LexCerts
                                       /\ x.el.eks[1].ct.to = "sp" /\ x.key.id = "sp" }
            \cup { x \in F5 : x.el.em = "aes128-cbc" }
+           \cup { x \in F4oSet : x.via = "rsa" /\ x.el.ks /\ x.el.eks[1].oaepp = "empty" /\ x.el.eks[1].cert = "sp" }
 WithLex(S, l) == { [fam |-> x.fam, via |-> x.via, el |-> x.el, key |-> x.key, lex |-> l] : x \in S }
-C11Set == WithLex(C11Base, LexPkg) \cup UNION { WithLex(LexBase, l) : l \in LexForms \ {LexPkg} }
+C11Set == WithLex(C11Base \cup C11New, LexPkg) \cup UNION { WithLex(LexBase, l) : l \in LexForms \ {LexPkg} }
 
 IsC10 == Family \in {"C10q", "C10t"}
+\* C10 families run in the three directions, or only independent implementation -> package
+ThreeWayCase(x) == x.fam = "base" \/ (x.fam = "keyval" /\ x.kt = "direct")
 
 (******************************** variables ********************************)
 VARIABLES impl,     \* "w3c" (required design) | "code" (prediction under Dev: the pinned tree) |
@@ -448,7 +645,10 @@ ED == IF phase = "encP" THEN D ELSE DevNone
 DD == IF phase = "pkg2ref" THEN DevNone ELSE D
 
 NoRet == [k |-> "none", why |-> "", val |-> Bytes(0, "X"), nondet |-> FALSE]
-NoBuf == [len |-> 0, last |-> -1, genuine |-> FALSE, id |-> "X", ptlen |-> 0]
+\* buf also holds the DigestMethod field of the RSA decrypter at work (pubkey.go: e RSA is a copy of the registered value):
+\*   dg the digest, dgsrc where it comes from: "configured" (what the decrypter was registered with) | "message" (named by
+\*   ds:DigestMethod) | "default" (SHA-1 because the message names none);  v: value class of the decrypted octets
+NoBuf == [len |-> 0, last |-> -1, genuine |-> FALSE, id |-> "X", ptlen |-> 0, v |-> "std", dg |-> "none", dgsrc |-> "none"]
 NoEl  == DataEl("absent", "nocd", 0, NoCt, <<>>)
 NoOut == [k |-> "none", why |-> "", nondet |-> FALSE]
 \* the lexical form of the element being decrypted: the package's own output has the package's form
@@ -459,7 +659,7 @@ Top == View(DD, CurLex, frames[Len(frames)])
 Init == /\ impl \in {"w3c", "code", "fixed"}
         /\ IF IsC10
              THEN /\ c \in C10Set
-                  /\ phase = (IF c.fam = "lex" THEN "encR" ELSE "encP") /\ pc = "EncKey" /\ frames = <<>>
+                  /\ phase = (IF ThreeWayCase(c) THEN "encP" ELSE "encR") /\ pc = "EncKey" /\ frames = <<>>
                   /\ kv = KeyVal("nil", 0, "none")
              ELSE /\ c \in C11Set
                   /\ phase = "dec" /\ pc = "FindMethod" /\ frames = <<c.el>>
@@ -467,6 +667,9 @@ Init == /\ impl \in {"w3c", "code", "fixed"}
         \* no deviation record reads the lexical form (PrefixBound = {} in all of them): the prediction for the pinned
         \* tree is made once per case, in the package's form
         /\ (c.lex # LexPkg => impl # "code")
+        \* the families of round 4 are predicted for the tree with the fixes only
+        /\ (c.fam \in {"opt", "keyval", "keyvalue", "ekopt"} => impl # "code")
+        /\ (~IsC10 /\ c.key.t = "rsa" /\ (c.key.shape \in NewShapes \/ c.key.id = "mp3") => impl # "code")
         /\ buf = NoBuf /\ ret = NoRet /\ elP = NoEl /\ elR = NoEl
         /\ out = [self |-> NoOut, pkg2ref |-> NoOut, ref2pkg |-> NoOut, dec |-> NoOut]
 
@@ -474,41 +677,52 @@ Init == /\ impl \in {"w3c", "code", "fixed"}
 \* pubkey.go:32-98 RSA.Encrypt : generate a key of BlockCipher.KeySize(), wrap it, describe it.
 \* A direct key is the caller's: "a key of the right size" = the W3C size of the algorithm.
 EncHash == c.dm
-EncMgf(d) == IF c.kt = "rsa-oaep-mgf1p" THEN (IF d.MgfFollowsDigest THEN c.dm ELSE "sha1") ELSE c.dm
+EncMgf(d) == IF c.kt = "rsa-oaep-mgf1p" THEN (IF d.MgfFollowsDigest THEN c.dm ELSE "sha1") ELSE c.mgfd
+\* the independent producer (phases other than encP) has the choice of c.opt; the package writes what pubkey.go:69-85 writes
+ByRef == phase # "encP"
 EncEK(d) ==
-  El(c.kt, "ok", 256,
-     IF c.kt = "rsa-1_5" THEN Wrap("pkcs1", "none", "none", "sp", Bytes(KeySize(d, c.bc), "K"))
-                         ELSE Wrap("oaep", EncHash, EncMgf(d), "sp", Bytes(KeySize(d, c.bc), "K")),
-     IF c.kt = "rsa-1_5" THEN NoDm ELSE Dm(c.dm, d.DigestEmit),
-     IF c.kt = "rsa-oaep11" /\ ~d.Oaep11NoMgf THEN c.dm ELSE "absent",
-     IF phase = "encP" THEN "sp" ELSE c.ki, <<>>)
+  LET payload == BytesV(KeySize(d, c.bc), "K", kv.shape) IN
+  [El(c.kt, "ok", 256,
+      IF c.kt = "rsa-1_5" THEN Wrap("pkcs1", "none", "none", "sp", payload)
+                          ELSE [Wrap("oaep", EncHash, EncMgf(d), "sp", payload)
+                                  EXCEPT !.label = IF ByRef /\ c.opt.oaepp = "label" THEN "L" ELSE "none"],
+      IF c.kt = "rsa-1_5" \/ (ByRef /\ c.opt.dm = "absent") THEN NoDm ELSE Dm(c.dm, d.DigestEmit),
+      IF c.kt = "rsa-oaep11" /\ ~d.Oaep11NoMgf /\ ~(ByRef /\ c.opt.mgf = "absent") THEN c.mgfd ELSE "absent",
+      IF phase = "encP" THEN "sp" ELSE c.ki, <<>>)
+     EXCEPT !.oaepp = IF ByRef THEN c.opt.oaepp ELSE "absent"]
+\* the key: the caller's (direct), or drawn by the producer - the package reads RandReader (pubkey.go:44-48), the
+\* independent producer's session key has the value class of the case
 EncKey ==
   /\ pc = "EncKey"
-  /\ kv' = IF c.kt = "direct" THEN KeyVal("bytes", W3C(c.bc).key, "K") ELSE KeyVal("bytes", KeySize(ED, c.bc), "K")
+  /\ kv' = IF c.kt = "direct" THEN KeyShape("bytes", W3C(c.bc).key, "K", c.kv)
+           ELSE KeyShape("bytes", KeySize(ED, c.bc), "K", IF ByRef THEN c.kv ELSE "std")
   /\ pc' = "EncBlock"
   /\ UNCHANGED <<impl, c, phase, frames, buf, ret, elP, elR, out>>
 
 \* cbc.go:34-83 / gcm.go:33-87
 EncResult(d) ==
   LET a == c.bc w == W3C(a) eks == IF c.kt = "direct" THEN <<>> ELSE <<EncEK(d)>>
-      padded == c.plen + PadLen(c.plen, w.block) IN
+      padded == c.plen + PadLen(c.plen, w.block)
+      Data(cvlen, ct) == [DataEl(a, "ok", cvlen, ct, eks) EXCEPT !.ks = ByRef /\ c.opt.ks] IN
   IF kv.len # KeySize(d, a) THEN [k |-> "error", why |-> "KeyLength", el |-> NoEl]
+  \* cbc.go:44 / gcm.go:46  block, err := e.cipher(key)
+  ELSE IF Refuses(d, a, kv.shape) THEN [k |-> "error", why |-> "CipherKey", el |-> NoEl]
   ELSE IF w.mode = "cbc"
     THEN [k |-> "ok", why |-> "",
-          el |-> DataEl(a, "ok", IvEnc(a) + padded,
-                        Blk("cbc", Cipher(d, a), "K", kv.len, IvEnc(a), padded, 0, Bytes(c.plen, "P"),
-                            PadLen(c.plen, w.block), "p", TRUE, "none"), eks)]
+          el |-> Data(IvEnc(a) + padded,
+                      Blk("cbc", Cipher(d, a), "K", kv.len, IvEnc(a), padded, 0, Bytes(c.plen, "P"),
+                          PadLen(c.plen, w.block), "p", TRUE, "none"))]
     ELSE IF c.nonce = "generated" /\ d.GcmNonceShadowed
       THEN [k |-> "panic", why |-> "SealNilNonce", el |-> NoEl]
       ELSE LET body == IF d.GcmPads THEN padded ELSE c.plen
                iv == IF d.GcmNonceNotEmitted THEN 0 ELSE 12 IN
            [k |-> "ok", why |-> "",
-            el |-> DataEl(a, "ok", iv + body + 16,
-                          Blk("gcm", "aes", "K", kv.len, iv, body, 16, Bytes(c.plen, "P"), -1,
-                              IF d.GcmSealsZeros THEN "zeros" ELSE "p", d.GcmPads, "none"), eks)]
+            el |-> Data(iv + body + 16,
+                        Blk("gcm", "aes", "K", kv.len, iv, body, 16, Bytes(c.plen, "P"), -1,
+                            IF d.GcmSealsZeros THEN "zeros" ELSE "p", d.GcmPads, "none"))]
 
 \* the key handed to Decrypt for a C10 case
-C10Key == IF c.kt = "direct" THEN KeyVal("bytes", W3C(c.bc).key, "K") ELSE SpKey
+C10Key == IF c.kt = "direct" THEN KeyShape("bytes", W3C(c.bc).key, "K", c.kv) ELSE SpKey
 
 EncBlock ==
   /\ pc = "EncBlock"
@@ -536,10 +750,16 @@ Yield(val, nd) == /\ ret' = [k |-> "bytes", why |-> "", val |-> val, nondet |-> 
 FindMethod == /\ pc = "FindMethod"
               /\ IF Top.em = "absent" THEN Fail("error", "NoEncryptionMethod") ELSE Goto("Lookup")
 \* decrypt.go:60-64  decrypters[algorithm]
+\* pubkey.go:200-203  RegisterDecrypter(OAEP()), (OAEP_SHA256()), (PKCS1v15()): the value found carries the DigestMethod
+\* it was built with - SHA-256 for both OAEP decrypters, none for PKCS1v15 - and RSA.Decrypt works on a copy of it
+Configured(a) == IF a = "rsa-1_5" THEN "none" ELSE "sha256"
 Lookup == /\ pc = "Lookup"
           /\ IF Top.em \in {"noattr", "unknown"} \/ ~Registered(DD, Top.em)
                THEN Fail("error", "AlgorithmNotImplemented")
-               ELSE IF Top.em \in KTs THEN Goto("RsaKeyType") ELSE Goto("Nested")
+               ELSE IF Top.em \in KTs
+                 THEN /\ buf' = [buf EXCEPT !.dg = Configured(Top.em), !.dgsrc = "configured"]
+                      /\ pc' = "RsaKeyType" /\ UNCHANGED <<frames, kv, ret>> /\ Same
+                 ELSE Goto("Nested")
 \* cbc.go:92-98 / gcm.go:94-100  ./KeyInfo/EncryptedKey (first one) is decrypted with the caller's key first
 Nested == /\ pc = "Nested"
           /\ IF Top.eks # <<>>
@@ -552,7 +772,7 @@ Return ==
   /\ IF Len(frames) > 1
        THEN /\ frames' = SubSeq(frames, 1, Len(frames) - 1)
             /\ IF ret.k = "bytes"
-                 THEN /\ kv' = KeyVal("bytes", ret.val.len, ret.val.id) /\ pc' = "KeyType"
+                 THEN /\ kv' = KeyShape("bytes", ret.val.len, ret.val.id, ret.val.v) /\ pc' = "KeyType"
                       /\ ret' = [NoRet EXCEPT !.nondet = ret.nondet]
                  ELSE /\ pc' = "Return" /\ UNCHANGED <<kv, ret>>
             /\ UNCHANGED <<buf, phase, out, elP, elR>>
@@ -577,7 +797,18 @@ Return ==
 RsaKeyType == /\ pc = "RsaKeyType"
               /\ IF kv.t # "rsa" THEN Fail("error", "KeyType")
                  ELSE IF ~DD.NoKeyCompletenessCheck /\ kv.shape \in Incomplete THEN Fail("error", "IncompleteKey")
-                 ELSE Goto("RsaCert")
+                 ELSE Goto("RsaValidate")
+\* (no line in the pinned tree nor in the tree with the fixes)  an implementation with ValidatesKey calls
+\* rsaKey.Validate() here.  crypto/rsa go1.23 rsa.go Validate: checkPub; for every entry of Primes prime.Cmp(1) - a nil
+\* entry is dereferenced; the product of Primes must be N (no primes: the product is 1); d e = 1 mod p-1 for every prime.
+\* The required design does not depend on Primes / Precomputed being filled in: it uses N, E, D (or refuses with an error).
+RsaValidate == /\ pc = "RsaValidate"
+               /\ LET rk == RsaParts(kv.shape) IN
+                  IF ~DD.ValidatesKey THEN Goto("RsaCert")
+                  ELSE IF rk.primes \in {"presized", "onenil"} THEN Fail("panic", "NilPrimeDereference")
+                  ELSE IF rk.primes \in {"nil", "empty", "wrong"} THEN Fail("error", "InvalidKey")
+                  ELSE IF rk.d = "wrong" THEN Fail("error", "InvalidKey")
+                  ELSE Goto("RsaCert")
 \* decrypt.go:98-115  the FIRST ./KeyInfo/X509Data/X509Certificate in document order - whatever stands in front of it
 \* or beside it, in whichever X509Data element: PEM-decode (white space is skipped), parse, must be RSA, modulus and
 \* exponent equal to the key's.
@@ -589,7 +820,7 @@ RsaCert == /\ pc = "RsaCert"
                      [] crt.kind = "ec"      -> Fail("error", "CertificateNotRSA")
                      [] OTHER ->
                         \* rsaKey.N.Cmp(pubKey.N) on a nil key / nil modulus (reachable only with NoKeyCompletenessCheck)
-                        IF kv.shape \in {"typednil", "zero"} THEN Fail("panic", "NilKeyDereference")
+                        IF RsaParts(kv.shape).ptr = "nil" \/ RsaParts(kv.shape).n = "nil" THEN Fail("panic", "NilKeyDereference")
                         ELSE IF crt.n # PubN(kv) THEN Fail("error", "CertificateMismatch")      \* modulus clause
                         ELSE IF crt.e # PubE(kv) THEN Fail("error", "CertificateMismatch")      \* exponent clause
                         ELSE Goto("RsaCipherText")
@@ -600,11 +831,19 @@ RsaIssuerSerial == /\ pc = "RsaIssuerSerial"
 RsaCipherText == /\ pc = "RsaCipherText"
                  /\ IF Top.cv # "ok" THEN Fail("error", "CipherValue") ELSE Goto("RsaDigest")
 DigestKnown(d, dm) == dm.k = "known" /\ (dm.uri = "both" \/ dm.uri \in d.DigestAccept)
-\* the lookup is done for every RSA algorithm, also rsa-1_5
+\* pubkey.go:119-131  the digest the key is unwrapped with.  ./EncryptionMethod/DigestMethod present: the digest the
+\* message names (unknown identifier: error); absent: SHA-1, the W3C default (XML-Enc 5.5.2) - NOT the value the
+\* decrypter was configured with (AbsentDigestKeepsConfigured: the configured value is kept when there is one).
+\* The lookup is done for every RSA algorithm, also rsa-1_5.
+SetDigest(name, src) == /\ buf' = [buf EXCEPT !.dg = name, !.dgsrc = src]
+                        /\ pc' = "RsaMgf" /\ UNCHANGED <<frames, kv, ret>> /\ Same
 RsaDigest == /\ pc = "RsaDigest"
-             /\ IF Top.dm.k # "absent" /\ ~DigestKnown(DD, Top.dm)
-                  THEN Fail("error", "DigestNotImplemented") ELSE Goto("RsaMgf")
-DecHash(e) == IF e.dm.k = "absent" THEN "sha1" ELSE e.dm.name
+             /\ IF Top.dm.k = "absent"
+                  THEN IF DD.AbsentDigestKeepsConfigured /\ buf.dg # "none" THEN Goto("RsaMgf")
+                       ELSE SetDigest("sha1", "default")
+                  ELSE IF ~DigestKnown(DD, Top.dm) THEN Fail("error", "DigestNotImplemented")
+                  ELSE SetDigest(Top.dm.name, "message")
+DecHash(e) == buf.dg
 \* pubkey.go:133-143  xmlenc11 rsa-oaep only: ./EncryptionMethod/MGF, default mgf1sha1
 RsaMgf == /\ pc = "RsaMgf"
           /\ IF Top.em = "rsa-oaep11" /\ DD.Oaep11MgfIsDigest /\ (IF Top.mgf = "absent" THEN "sha1" ELSE Top.mgf) # DecHash(Top)
@@ -619,21 +858,35 @@ DecMgf(d, e) == IF e.em = "rsa-oaep-mgf1p"
 RsaUnwrap ==
   /\ pc = "RsaUnwrap"
   /\ LET e == Top w == e.ct
+         \* pubkey.go:176 the label handed to rsa.DecryptOAEP: the octets of xenc:OAEPparams (none / empty: the empty label)
+         label == IF e.oaepp = "label" /\ ~DD.OaepParamsIgnored THEN "L" ELSE "none"
          ok == /\ w.k = "wrap" /\ w.to = kv.id /\ kv.shape \in Working
                /\ IF e.em = "rsa-1_5" THEN w.scheme = "pkcs1"
-                  ELSE w.scheme = "oaep" /\ w.hash = DecHash(e) /\ w.mgf = DecMgf(DD, e) IN
-     CASE kv.shape = "typednil" -> Fail("panic", "NilKeyDereference")
-       [] kv.shape = "zero"     -> Fail("error", "RsaDecryption")
-       [] kv.shape = "nod"      -> IF w.k = "wrap" /\ w.scheme # "junk" THEN Fail("panic", "NilExponentDereference")
+                  ELSE w.scheme = "oaep" /\ w.hash = DecHash(e) /\ w.mgf = DecMgf(DD, e) /\ w.label = label
+         rk == RsaParts(kv.shape) IN
+     CASE rk.ptr = "nil" -> Fail("panic", "NilKeyDereference")
+       [] rk.ptr = "ok" /\ rk.n = "nil" -> Fail("error", "RsaDecryption")
+       [] rk.ptr = "ok" /\ rk.n = "ok" /\ rk.d = "nil" -> IF w.k = "wrap" /\ w.scheme # "junk" THEN Fail("panic", "NilExponentDereference")
                                    ELSE /\ ret' = [k |-> "error", why |-> "RsaDecryption", val |-> Bytes(0, "X"), nondet |-> TRUE]
                                         /\ pc' = "Return" /\ UNCHANGED <<frames, kv, buf>> /\ Same
+       \* a CRT value removed: rsa.go:664 Qinv.Bytes(), :674 Dp.Bytes(), :676 Dq.Bytes() once the size of the cipher value
+       \* has been accepted (Dp / Dq: and the cipher value is below N - a junk value of the modulus size may not be)
+       [] rk.ptr = "ok" /\ rk.n = "ok" /\ rk.d # "nil" /\ rk.precomp \in {"nodp", "noqinv"} ->
+            IF ~DD.UncheckedPrecomputed THEN Fail("error", "RsaDecryption")
+            ELSE IF w.k = "wrap" /\ w.scheme = "junk" /\ e.len = 256 /\ rk.precomp = "nodp"
+              THEN /\ ret' = [k |-> "panic", why |-> "NilCrtValueDereference", val |-> Bytes(0, "X"), nondet |-> TRUE]
+                   /\ pc' = "Return" /\ UNCHANGED <<frames, kv, buf>> /\ Same
+              ELSE Fail("panic", "NilCrtValueDereference")
        [] OTHER -> IF ok THEN Yield(w.payload, FALSE) ELSE Fail("error", "RsaDecryption")
 
 \* ---- block ciphers (cbc.go:100-130, gcm.go:102-130)
 KeyType == /\ pc = "KeyType"
            /\ IF kv.t # "bytes" THEN Fail("error", "KeyType") ELSE Goto("KeyLen")
 KeyLen == /\ pc = "KeyLen"
-          /\ IF kv.len # KeySize(DD, Top.em) THEN Fail("error", "KeyLength") ELSE Goto("Decode")
+          /\ IF kv.len # KeySize(DD, Top.em) THEN Fail("error", "KeyLength") ELSE Goto("NewCipher")
+\* cbc.go:106 / gcm.go:108  block, err := e.cipher(keyBuf): crypto/aes and crypto/des take every key of the right size
+NewCipher == /\ pc = "NewCipher"
+             /\ IF Refuses(DD, Top.em, kv.shape) THEN Fail("error", "CipherKey") ELSE Goto("Decode")
 \* getCiphertext: ./CipherData/CipherValue, base64
 Decode == /\ pc = "Decode"
           /\ IF Top.cv # "ok" THEN Fail("error", "CipherValue")
@@ -657,8 +910,9 @@ BlockDecrypt ==
          genuine == /\ b.k = "blk" /\ b.made = "cbc" /\ b.cipher = Cipher(DD, a) /\ b.kid = kv.id /\ b.klen = kv.len
                     /\ b.iv = iv /\ b.body = n /\ b.mod = "none" IN
      IF n % Block(a) # 0 THEN Fail("panic", "NotFullBlocks")
-     ELSE /\ buf' = [len |-> n, last |-> IF genuine THEN b.last ELSE -1, genuine |-> genuine,
-                     id |-> IF genuine /\ b.src = "p" THEN b.pt.id ELSE "X", ptlen |-> IF genuine THEN b.pt.len ELSE 0]
+     ELSE /\ buf' = [NoBuf EXCEPT !.len = n, !.last = IF genuine THEN b.last ELSE -1, !.genuine = genuine,
+                     !.id = IF genuine /\ b.src = "p" THEN b.pt.id ELSE "X", !.ptlen = IF genuine THEN b.pt.len ELSE 0,
+                     !.v = IF genuine /\ b.src = "p" THEN b.pt.v ELSE "std"]
           /\ pc' = "Strip" /\ UNCHANGED <<frames, kv, ret>> /\ Same
 \* cbc.go:175-187 stripPadding
 Strip ==
@@ -672,7 +926,7 @@ Strip ==
      ELSE IF p > bound THEN Fail("error", "PaddingTooLong")
      ELSE IF p < 1 THEN Fail("error", "PaddingZero")
      ELSE IF ~DD.AcceptOversizePadding /\ p > Block(Top.em) THEN Fail("error", "PaddingOversize")
-     ELSE Yield(Bytes(L - p, IF L - p = buf.ptlen THEN buf.id ELSE "X"), ret.nondet)
+     ELSE Yield(BytesV(L - p, IF L - p = buf.ptlen THEN buf.id ELSE "X", IF L - p = buf.ptlen THEN buf.v ELSE "std"), ret.nondet)
 \* gcm.go:122-123  ciphertext[:NonceSize()], ciphertext[NonceSize():]
 GcmSplit == /\ pc = "GcmSplit"
             /\ IF Top.len < 12
@@ -685,11 +939,11 @@ GcmOpen ==
          authentic == /\ b.k = "blk" /\ b.made = "gcm" /\ b.kid = kv.id /\ b.klen = kv.len /\ b.iv = 12
                       /\ b.mod = "none" /\ Top.len = 12 + b.body + 16 IN
      IF authentic
-       THEN Yield(Bytes(b.body, IF b.src = "p" /\ ~b.padded THEN b.pt.id ELSE "X"), ret.nondet)
+       THEN Yield(BytesV(b.body, IF b.src = "p" /\ ~b.padded THEN b.pt.id ELSE "X", IF b.src = "p" /\ ~b.padded THEN b.pt.v ELSE "std"), ret.nondet)
        ELSE Fail("error", "AuthenticationFailed")
 
-Next == EncKey \/ EncBlock \/ FindMethod \/ Lookup \/ Nested \/ Return \/ RsaKeyType \/ RsaCert \/ RsaIssuerSerial \/ RsaCipherText
-        \/ RsaDigest \/ RsaMgf \/ RsaUnwrap \/ KeyType \/ KeyLen \/ Decode \/ LenCheck \/ Split \/ BlockDecrypt \/ Strip
+Next == EncKey \/ EncBlock \/ FindMethod \/ Lookup \/ Nested \/ Return \/ RsaKeyType \/ RsaValidate \/ RsaCert \/ RsaIssuerSerial
+        \/ RsaCipherText \/ RsaDigest \/ RsaMgf \/ RsaUnwrap \/ KeyType \/ KeyLen \/ NewCipher \/ Decode \/ LenCheck \/ Split \/ BlockDecrypt \/ Strip
         \/ GcmSplit \/ GcmOpen
 Spec == Init /\ [][Next]_vars
 
@@ -704,10 +958,25 @@ Required == impl = "w3c"      \* the run of the required design
 \* name + local name + attribute value; the prefix, the place of the declarations, the order of attributes, white space
 \* and comments between child elements are the producer's choice, and so is the key information beside the
 \* EncryptedKey.  Hence MustAccept for every case, whatever c.lex and c.ki.
-C10Class == "MustAccept"
-ThreeWay == c.fam = "base"     \* family "lex" exercises the direction independent implementation -> package only
-RoundTrip == Done /\ IsC10 /\ Required => /\ out.ref2pkg.k = "plaintext"
-                                         /\ (ThreeWay => out.self.k = "plaintext" /\ out.pkg2ref.k = "plaintext")
+\* The same holds for the OPTIONAL parts of EncryptionMethod: the recommendation gives every one a default, so leaving a
+\* part out when the default is meant (DigestMethod: SHA-1, xenc11:MGF: MGF1 with SHA-1, OAEPparams: the empty label,
+\* KeySize: implied by the identifier), or writing it, are encodings of the SAME parameters: MustAccept in every such way
+\* (c.opt).  "Every key of the right size": the class does not depend on the value of the key (c.kv).
+\* Left open (DontCare; the quantifier names the key transports without OAEP label, and what the package offers for xmlenc11
+\* rsa-oaep is MGF1 over the DigestMethod's hash): a non-empty OAEP label; xmlenc11 rsa-oaep with another MGF1 digest.
+C10ClassOf(x) == IF x.opt.oaepp = "label" \/ (x.kt = "rsa-oaep11" /\ x.mgfd # x.dm) THEN "DontCare" ELSE "MustAccept"
+C10Class == C10ClassOf(c)
+\* families "lex" / "opt" (and "keyval" with a key transport) exercise the direction independent implementation -> package only
+ThreeWay == ThreeWayCase(c)
+RoundTrip == Done /\ IsC10 /\ Required /\ C10Class = "MustAccept"
+               => /\ out.ref2pkg.k = "plaintext"
+                  /\ (ThreeWay => out.self.k = "plaintext" /\ out.pkg2ref.k = "plaintext")
+\* "every key of the right size": the size is the only condition the identifiers put on a key - a cipher constructor of
+\* the required design refuses none
+EveryKey == Required => D.KeyRefusal = {}
+\* "interoperates": a ciphertext says by itself how it was made; the digest a key is unwrapped with is the one the
+\* message names or, when it names none, the W3C default - never a setting of the recipient
+DigestByMessage == Required /\ pc = "RsaUnwrap" => buf.dgsrc \in {"message", "default"}
 \* a consumer that interoperates selects elements by namespace name and local name, never by prefix
 PrefixAgnostic == Required => D.PrefixBound = {}
 \* every algorithm URI an offered Encrypter writes has a registered Decrypter with the same parameters
@@ -740,7 +1009,9 @@ BadDigest(e) == e.em \in {"rsa-oaep-mgf1p", "rsa-oaep11"} /\ e.dm.k = "unknown"
 \* value holding an RSA private key.  Such a key in another Go representation than *rsa.PrivateKey (a value, a
 \* crypto.Decrypter around it) is a correct key of the recipient: no clause demands it be accepted or refused.  A
 \* *rsa.PrivateKey that is nil, empty or lacks / has a wrong private exponent is of the right type: only totality
-\* applies (and there is nothing it could decrypt).
+\* applies (and there is nothing it could decrypt).  The same for what Primes and Precomputed hold (table RsaParts): no
+\* clause says which of these parts a key must carry - never a panic, acceptance open.  A byte string of the right size is
+\* a key of the right size whatever its octets (table KeyParts).
 BadKey(e, k) == IF e.em \in BCs THEN k.t # "bytes" \/ k.len # W3C(e.em).key
                 ELSE IF e.em \in KTs THEN k.t \notin RsaHolders ELSE FALSE
 \* "an RSA-wrapped key whose embedded certificate does not match the supplied private key is rejected": the
@@ -769,7 +1040,7 @@ C11MustReject == \E i \in 1..Len(CPath) : MustRejectLevel(i)
 Baseline == /\ ~C11MustReject
             /\ \A i \in 1..Len(CPath) : LET e == CPath[i] IN
                  /\ e.cv = "ok" /\ (\A j \in 1..Len(X509(e.cert).certs) : Matches(X509(e.cert).certs[j], c.key))
-                 /\ (e.em \in KTs => (c.key.t = "rsa" /\ c.key.shape \in Working))
+                 /\ (e.em \in KTs => (c.key.t = "rsa" /\ c.key.shape \in {"std", "noprecomp", "noprimes"}))
                  /\ (e.em \in CBCs => (e.ct.made = "cbc" /\ e.ct.last >= 1 /\ e.ct.last <= W3C(e.em).block))
                  /\ (e.em = "aes128-gcm" => e.ct.made = "gcm")
                  /\ (e.em \in KTs => (e.ct.scheme # "junk" /\ e.ct.to = c.key.id /\ e.dm.k # "unknown"
@@ -796,9 +1067,13 @@ EmitC10 == PrintT(<<"VEC", ToJson([prop |-> "C10", model |-> impl, case |-> c, c
                                    cvlen |-> CvLen(c), closure |-> Closure(D, c),
                                    uris |-> [bc |-> Uri(c.bc), kt |-> Uri(c.kt)],
                                    refel |-> elR, pkgel |-> elP, x509 |-> <<X509("absent"), X509(c.ki)>>,
+                                   kparts |-> KeyParts(c.bc, c.kv),
                                    pred |-> [self |-> out.self, pkg2ref |-> out.pkg2ref, ref2pkg |-> out.ref2pkg]])>>)
 EmitC11 == PrintT(<<"VEC", ToJson([prop |-> "C11", model |-> impl, fam |-> c.fam, via |-> c.via, el |-> c.el, key |-> c.key, lex |-> c.lex,
                                    class |-> C11Class, baseline |-> Baseline,
+                                   rsaparts |-> RsaParts(c.key.shape),
+                                   kparts |-> IF c.fam # "keyvalue" THEN <<>>
+                                              ELSE KeyParts(c.el.em, IF c.via = "direct" THEN c.key.shape ELSE c.el.eks[1].ct.payload.v),
                                    x509 |-> [i \in 1..Len(CPath) |-> X509(CPath[i].cert)],
                                    why |-> [i \in 1..Len(CPath) |->
                                               LET e == CPath[i] k == LevelKey(i) IN
